@@ -84,13 +84,27 @@ def each_writer_loop(method_name, record):
     arguments, executes it for a generic element and records the call as a ghost event."""
     def handler(x, node, st):
         body = [b for b in node.body if not (isinstance(b, ast.Expr) and isinstance(b.value, ast.Call) and isinstance(b.value.func, ast.Attribute) and x.is_logger(b.value.func.value))]
-        ok = (len(body) == 1 and isinstance(body[0], ast.Expr) and isinstance(body[0].value, ast.Call) and isinstance(body[0].value.func, ast.Attribute)
-              and isinstance(body[0].value.func.value, ast.Name) and body[0].value.func.value.id == node.target.id and not node.orelse)
-        if not ok: raise Unsupported("writer loop body is not the single call the loop contract covers")
-        call = body[0].value
+        def is_call(b): return (isinstance(b, ast.Expr) and isinstance(b.value, ast.Call) and isinstance(b.value.func, ast.Attribute)
+                                and isinstance(b.value.func.value, ast.Name) and b.value.func.value.id == node.target.id)
+        calls = [b for b in body if is_call(b)]; others = [b for b in body if not is_call(b)]
+        if len(calls) != 1 or node.orelse: raise Unsupported("writer loop body is not the single call the loop contract covers")
+        call = calls[0].value
         it = x.ev(node.iter, st)
         if not (isinstance(it, VRef) and it.cls == "WriterList"): raise Unsupported("writer loop iterates over something else than the writer list")
         record.append(("loop iterates over the registered writers (self._writers itself)", st.pc, T))
+        if others:
+            # frame condition of the loop contract: "each element once, in order" holds for a python for-statement only if the body leaves the list
+            # alone.  The remaining statements are executed for a generic registered writer; they must not change the list (nor anything else).
+            seq0 = st.heap[it.oid]["$seq"]
+            s2 = st.fork(); w = mk_writer_obj(s2, "loop_writer"); wid = s2.heap[w.oid]["$id"]
+            s2.env[node.target.id] = w
+            x.block(others, s2)
+            record.append(("the loop body does not modify the writer list it iterates over (python skips elements of a list that shrinks under the loop)",
+                           AND(s2.pc, z3.Contains(seq0, z3.Unit(wid))), s2.heap[it.oid]["$seq"] == seq0))
+            for oid, obj in st.heap.items():
+                for f, v in obj.items():
+                    if s2.heap.get(oid, {}).get(f) is not v and not (oid == it.oid and f == "$seq"):
+                        raise Unsupported("writer loop body has effects outside the loop contract")
         args = [x.ev(a, st) for a in call.args]
         st.log.append((T, ("each-writer", call.func.attr, args, st.heap[it.oid]["$seq"])))
         # A-writers: writer methods do not raise and do not touch the builder (environment); DeviceError from a writer is re-raised by the real code
@@ -105,6 +119,7 @@ def u_write(ctx):
     del x.contracts[("GCodeCore", "write")]
     record = []
     x.loop_handlers[("GCodeCore.write", 1)] = each_writer_loop("write", record)
+    x.iter_handlers.append((lambda it, st_: isinstance(it, VRef) and it.cls == "WriterList", each_writer_loop("write", record)))
     stmt = VStr(None, fresh("statement", z3.StringSort()))
     h0 = st.snap()
     exits = ctx.run(x, "GCodeCore.write", [g, stmt], {}, st)
@@ -173,6 +188,7 @@ def _each(method, qual_method, post_clear):
         g, wl, fmt, seq = mk_core(st, x); install_writers(x, ctx)
         record = []
         x.loop_handlers[(f"GCodeCore.{qual_method}", 1)] = each_writer_loop(method, record)
+        x.iter_handlers.append((lambda it, st_: isinstance(it, VRef) and it.cls == "WriterList", each_writer_loop(method, record)))
         args = [VBool(fresh("wait", z3.BoolSort()))] if qual_method == "teardown" else []
         exits = ctx.run(x, f"GCodeCore.{qual_method}", [g] + args, {}, st)
         covers(ctx, exits); never_raises(ctx, exits)
